@@ -40,6 +40,15 @@ CHECKS: dict[str, dict[str, str]] = {
         "technique": "TLA+ BIP340 specification; TLC-generated acceptance tables replayed into btclib; trace validation with an existentially quantified batch coefficient",
         "design_ref": "DESIGN.md section 4 C03",
     },
+    "C04": {
+        "text": ("Backend.tla states the design (the outcome of a call is F[op, args] for an F that does not read the backend flag); ~900 "
+                 "(entry point, argument) pairs covering every dual-path API -- valid arguments and each argument malformed one way -- are called "
+                 "with the bindings serving, switched off, and along random histories with flips in between (objects built on one arm used on the "
+                 "other); TLC validates the recorded trace against PurityTrace, where F is not logged: the trace is accepted iff one F explains "
+                 "the value digest or exception class seen on both arms."),
+        "technique": "TLA+ backend-independence model; paired-arm call traces validated by TLC with the result function existentially quantified",
+        "design_ref": "DESIGN.md section 4 C04",
+    },
     "C05": {
         "text": ("TLC checks that the small grammars (CompactSize, var-bytes, witness, TxOut) are canonical over ALL byte strings on a boundary "
                  "alphabet up to a length (WireModel) and the same strings are replayed into btclib's parsers; for every one of the ~55 classes "
